@@ -52,7 +52,21 @@ type AliasInt = int
 
 func (MyInt) M() int { return 0 }
 
+type PT struct{ N int }
+
+func (p *PT) Inc(d int) int { p.N += d; return p.N }
+func (t PT) Get() int       { return t.N }
+
+type EPT struct {
+	PT
+	K string
+}
+
 var (
+	pt   PT
+	ppt  *PT
+	ept  EPT
+	pept *EPT
 	b    bool
 	i    int
 	i8   int8
@@ -445,6 +459,23 @@ func AccessAtoms() []Atom {
 			add("opassign/"+op+"/"+x.Class, "u8 "+op+" "+x.Text)
 			add("opassign-lhs/"+op+"/"+x.Class, x.Text+" "+op+" 1")
 		}
+	}
+	// method values and method expressions, value and pointer receivers, through variables, pointers and embedding
+	// (T.PtrMethod is not Go; the builder accepts it and emits (*T).PtrMethod)
+	for _, recv := range []string{"PT", "(*PT)", "EPT", "(*EPT)", "pt", "ppt", "(*ppt)", "(&pt)", "ept", "pept", "ept.PT", "(&ept.PT)", "PT{}", "(&PT{})", "EPT{}"} {
+		for _, m := range []string{"Inc", "Get"} {
+			add("method/"+recv+"."+m, "_ = "+recv+"."+m)
+			add("method/"+recv+"."+m, "f := "+recv+"."+m+"; _ = f")
+			add("method/"+recv+"."+m, "var f = "+recv+"."+m+"; _ = f")
+		}
+		add("method/"+recv+".call", "_ = "+recv+".Inc(1)")
+		add("method/"+recv+".call", "_ = "+recv+".Get()")
+		add("method/"+recv+".call", "_ = "+recv+".Inc(&pt, 1)")
+		add("method/"+recv+".call", "_ = "+recv+".Inc(pt, 1)")
+		add("method/"+recv+".call", "_ = "+recv+".Get(pt)")
+		add("method/"+recv+".call", "_ = "+recv+".Get(ppt)")
+		add("method/"+recv+".call", "x := "+recv+".Get(ept); _ = x")
+		add("method/"+recv+".call", "x := "+recv+".Inc(pept, 2); _ = x")
 	}
 	for _, s := range []string{"_ = st.A", "_ = pst.A", "_ = (*pst).B", "_ = (&st).A", "_ = mi.M()", "_ = mi.M", "_ = MyInt.M", "_ = (*MyInt).M", "_ = mif.M()", "_ = e.Error()", "_ = st.C", "_ = i.x", "_ = unsafe.Pointer(p)",
 		"_ = *p", "_ = *pst", "_ = **&p", "_ = &i", "_ = &st.A", "_ = &sl[0]", "_ = &ar[1]", "_ = &m[\"k\"]", "_ = &s[0]", "_ = &fn", "_ = &MyStruct{}", "_ = &[]int{1}", "_ = &1", "_ = &i8", "_ = &two",
